@@ -21,11 +21,14 @@ def run(ctx):
                       "override, the inherited one when B does not define m, none for an override that does not watch", floor=1)
     ctx.rule("R06.b", "depends model, installation: Parameters._update_deps interpreted at construction, after a sub-object was replaced, and after an unrelated change: one watcher per "
                       "(object, class, what) group covering all the group's dependencies, on_init methods called exactly once at the end, dynamic watchers recorded per method", floor=1)
+    ctx.rule("R06.f", "depends model, function form: param.depends interpreted for a function with Parameter-object dependencies of two owners in interleaved order plus a keyword dependency, "
+                      "watch=True: exactly one watcher per owner object, watching all of that owner's names, one shared callback", floor=1)
+    ctx.rule("R06.r", "depends model, method-name recursion: _params_depended_on interpreted for a method that names another method as a dependency (in three orders): every (parameter, what) "
+                      "pair and every dynamic spec the named method declares is among the result -- 'a' and 'a:bounds' are different dependencies", floor=1)
     ctx.rule("R06.c", "the construction path reaches the installation: Parameterized.__init__ calls param._update_deps(init=True) after the values were set, and the depends decorator records "
                       "watch / on_init / the dependency list in _dinfo, the only thing the metaclass reads", floor=2)
     ctx.not_decided += ["that a watcher runs its callback once per batch and only on a change (C05 / C03 decide that for every watcher, these included)",
                         "the resolution of dependency specs to parameters (_spec_to_obj, method-name recursion): the model takes the resolved lists as given",
-                        "the function form of depends (param/depends.py) beyond the _dinfo record",
                         "class shapes beyond the bounded ones (multiple inheritance merges use the same loop over classlist)"]
     ctx.assumptions.append("ancestors' tables were built by the same code (induction over class creation order)")
     init = ctx.repo.func(P + "Parameterized.__init__")
@@ -48,4 +51,6 @@ def run(ctx):
     else:
         ctx.fail("R06.c", dep, dep.node, "depends no longer records %s in _dinfo" % sorted(need - keys), key=dep.qualname + "::dinfo")
     from checks import depends_model
+    depends_model.report_function_form(ctx, "R06.f")
+    depends_model.report_method_recursion(ctx, "R06.r")
     depends_model.report(ctx, "R06.a", "R06.b")
